@@ -11,10 +11,11 @@ E1, three parts, all exhaustive over the stated bound:
     <= 2 (quick) / <= 3 (thorough) of the 63 C identifiers, each name declared as
     constant, struct tag, typedef, enum tag, anonymous-struct typedef ('$name' entry)
     and union tag; integer_const / lib attribute / typeof for every identifier of the
-    universe (members and non-members); plus the full universe and all
-    universe-minus-one sets.
- 3. the same through compiled API-mode modules for all subsets of size <= 2 of a
-    collision core (+ triples in the thorough tier) and the full universe.
+    universe (members and non-members); plus the full universe (thorough: and all
+    universe-minus-one sets).
+ 3. the same through compiled API-mode modules (two per set: constants + struct tags,
+    anonymous-struct typedefs + enum tags) for all subsets of size <= 2 of a collision
+    core (+ triples in the thorough tier) and the full universe.
 """
 import contextlib
 import io
@@ -116,7 +117,7 @@ def texts_for(S):
     Every declaration carries the global index of its name so that 'resolves to its own entry'
     is observable."""
     names = sorted(S, reverse=True)
-    a, b, c = [], [], []
+    a, b, c, d = [], [], [], []
     for n in names:
         g = GI[n]
         a.append("#define %s %d\n" % (n, 100 + g))
@@ -125,7 +126,10 @@ def texts_for(S):
         b.append("enum %s { Zq%d = %d };\n" % (n, g, g + 7))
         c.append("typedef struct { char g%d[%d]; struct { char n%d; }; } %s;\n" % (g, g + 1, g, n))
         c.append("union %s { char h%d[%d]; };\n" % (n, g, g + 2))
-    return "".join(a), "".join(b), "".join(c)
+        # d = the typedef of c + the enum tag of b: with a, it reaches all four tables in two modules (API batch)
+        d.append("typedef struct { char g%d[%d]; struct { char n%d; }; } %s;\n" % (g, g + 1, g, n))
+        d.append("enum %s { Zq%d = %d };\n" % (n, g, g + 7))
+    return "".join(a), "".join(b), "".join(c), "".join(d)
 
 
 def c_source_for(S, which):
@@ -143,7 +147,10 @@ def c_source_for(S, which):
         for n in names:
             g = GI[n]
             out.append("typedef struct { char g%d[%d]; struct { char n%d; }; } %s;\n" % (g, g + 1, g, n))
-            out.append("union %s { char h%d[%d]; };\n" % (n, g, g + 2))
+            if which == "c":
+                out.append("union %s { char h%d[%d]; };\n" % (n, g, g + 2))
+            else:
+                out.append("enum %s { Zq%d = %d };\n" % (n, g, g + 7))
     return "".join(out)
 
 
@@ -282,16 +289,25 @@ def probe_module(which, S, ffi, lib, mode):
                 except Exception as e:
                     bad.append(("anon_typedef", u, "member not found: " + _err(e)))
                 try:
-                    ct = ffi.typeof("union " + u)
-                    got = (ct.kind, ct.fields[0][0], ffi.sizeof(ct))
-                    if got != ("union", "h%d" % g, g + 2):
-                        bad.append(("union_tag", u, "resolved to %r" % (got,)))
+                    if which == "c":
+                        ct = ffi.typeof("union " + u)
+                        got = (ct.kind, ct.fields[0][0], ffi.sizeof(ct))
+                        if got != ("union", "h%d" % g, g + 2):
+                            bad.append(("union_tag", u, "resolved to %r" % (got,)))
+                    else:
+                        ct = ffi.typeof("enum " + u)
+                        got = (ct.kind, dict(ct.relements))
+                        if got != ("enum", {"Zq%d" % g: g + 7}):
+                            bad.append(("enum_tag", u, "resolved to %r" % (got,)))
                 except Exception as e:
-                    bad.append(("union_tag", u, "member not found: " + _err(e)))
+                    bad.append(("union_tag" if which == "c" else "enum_tag", u, "member not found: " + _err(e)))
             else:
                 expect_missing("anon_typedef", u, lambda: ffi.typeof(u), (ffi.error,))
-                expect_missing("union_tag", u, lambda: ffi.typeof("union " + u), (ffi.error,))
-            # 'struct u' is declared by nobody in this module (u is a union tag or nothing)
+                if which == "c":
+                    expect_missing("union_tag", u, lambda: ffi.typeof("union " + u), (ffi.error,))
+                else:
+                    expect_missing("enum_tag", u, lambda: ffi.typeof("enum " + u), (ffi.error,))
+            # 'struct u' is declared by nobody in this module (u is a union/enum tag or nothing)
             expect_missing("struct_tag_absent", u, lambda: ffi.typeof("struct " + u), (ffi.error,))
     return nprobes, nfound, bad
 
@@ -299,7 +315,7 @@ def probe_module(which, S, ffi, lib, mode):
 def run_set(S, mode, which_list):
     out = []
     np_ = nf_ = 0
-    texts = dict(zip("abc", texts_for(S)))
+    texts = dict(zip("abcd", texts_for(S)))
     for w in which_list:
         try:
             if mode == "abi":
@@ -400,7 +416,8 @@ def run(ctx):
     k_abi = 2 if ctx.quick else 3
     sets = list(enumerate_sets(IDS, k_abi))
     sets.append(tuple(IDS))
-    sets.extend(tuple(x for x in IDS if x != y) for y in IDS)
+    if not ctx.quick:
+        sets.extend(tuple(x for x in IDS if x != y) for y in IDS)
     nontrivial = set()
     for S in sets:
         cl = relation_classes(S)
@@ -438,8 +455,8 @@ def run(ctx):
     api_sets = [S for S in api_sets if S] + [tuple(IDS)]
     items = []
     for S in api_sets:
-        # quick: module b (typedef array + enum tag) is skipped for singletons to keep the number of compilations down
-        for w in ("a", "c") if (ctx.quick and len(S) == 1) else ("a", "b", "c"):
+        # two modules reach all four tables: a = constants + struct tags, d = typedefs ('$' structs) + enum tags
+        for w in ("a", "d"):
             items.append([("api", w, [S])])
     ev_api = [0, 0, 0]
     for item, r in pool.pmap(work_block, items):
@@ -468,7 +485,8 @@ def run(ctx):
                 "identifier of the universe; part 3: API-mode modules for every non-empty subset of size <= 2 of %s%s + "
                 "the full universe.  non-trivial (counted over part 2 sets) = the set contains a prefix pair, a common "
                 "prefix followed by divergence, a case-only difference or an underscore/letter first-character pair" % (
-                    KMAX_C, n, k_abi, "CORE6" if ctx.quick else "CORE12",
+                    KMAX_C, n, k_abi, "" if ctx.quick else " + all 63 universe-minus-one sets",
+                    "CORE6" if ctx.quick else "CORE12",
                     "" if ctx.quick else " and every triple of CORE8"),
         "exhaustive": True,
         "bound": {"c_harness_max_set_size": KMAX_C, "abi_max_set_size": k_abi,
@@ -515,7 +533,7 @@ def replay(detail):
     mode = detail["mode"]
     w = detail["module"]
     print("mode:", mode, "module:", w)
-    print(dict(zip("abc", texts_for(S)))[w])
+    print(dict(zip("abcd", texts_for(S)))[w])
     n, f, bad = run_set(S, mode, w)
     for b in bad:
         print("MISMATCH", b["what"], b["probe"], b["msg"])
